@@ -124,30 +124,44 @@ Theorem C09_cap : forall v c s s' m, cfg_ok c -> reachable v c s ->
 Proof. exact cap_fires. Qed.
 Print Assumptions C09_cap.
 
-(* CLOSE WAITS.  Close returns only from a state with no token goroutine, no signal goroutine
-   and the run loop gone (both variants) ... *)
-Theorem C09_close_waits : forall v c s s', cfg_ok c -> reachable v c s ->
-  step v c s CloseReturn = Some s' ->
+(* CLOSE WAITS.  A Close call - the first one or a second one that overlaps it or follows it -
+   returns only from a state with no token goroutine, no signal goroutine and the run loop gone
+   (both variants) ... *)
+Theorem C09_close_waits : forall v c s e s', cfg_ok c -> reachable v c s ->
+  is_close_return e = true -> step v c s e = Some s' ->
   tokens s = 0 /\ inflight s = 0 /\ run s = R_exited /\ closed s = true.
 Proof. exact close_waits. Qed.
 Print Assumptions C09_close_waits.
 
-(* ... and on the fixed code none ever appears afterwards, whatever is called later. *)
+(* ... said the other way round: while the run loop has not returned, or a token or signal
+   goroutine exists, NO Close call can return, however many are under way ... *)
+Theorem C09_close_blocked_while_running : forall v c s, cfg_ok c -> reachable v c s ->
+  run s <> R_exited \/ 0 < tokens s \/ 0 < inflight s ->
+  step v c s CloseReturn = None /\ step v c s Close2Return = None.
+Proof. exact close_blocked_while_running. Qed.
+Print Assumptions C09_close_blocked_while_running.
+
+(* ... and on the fixed code, once any Close call has returned, none ever appears afterwards,
+   whatever is called later. *)
 Theorem C09_close_waits_for_good : forall c s, cfg_ok c -> reachable Fixed c s ->
-  clo s = C_returned -> tokens s = 0 /\ inflight s = 0 /\ run s = R_exited.
+  clo s = C_returned \/ clo2 s = C_returned ->
+  tokens s = 0 /\ inflight s = 0 /\ run s = R_exited.
 Proof. exact close_returned_quiet. Qed.
 Print Assumptions C09_close_waits_for_good.
 
-(* CLOSE RETURNS (fixed code; no-wedge form).  In every reachable state with a Close under way
-   (closeCh closed, Close not yet back): some event of the limiter's own goroutines is enabled;
-   every such event strictly decreases a non-negative measure; and a schedule of at most
-   [measure s] such events - no caller, no consumer, no clock, no cancellation - makes Close
-   return with the wait group at zero. *)
+(* CLOSE RETURNS (fixed code; no-wedge form).  In every reachable state with some Close call
+   under way (it has been called and is not yet back; there may be two): some event of the
+   limiter's own goroutines is enabled; every such event strictly decreases a non-negative
+   measure; and a schedule of at most [measure s] such events - no caller, no consumer, no clock,
+   no cancellation - makes EVERY Close call that was under way return, with the wait group at
+   zero. *)
 Theorem C09_close_returns : forall c s, cfg_ok c -> reachable Fixed c s -> closing s ->
   (exists e s1, internal e = true /\ step Fixed c s e = Some s1) /\
   (forall e s1, internal e = true -> step Fixed c s e = Some s1 -> 0 <= measure s1 < measure s) /\
   (exists es s', forallb internal es = true /\ exec Fixed c s es = Some s' /\
-                 clo s' = C_returned /\ wg s' = 0 /\ Z.of_nat (length es) <= measure s).
+                 (under_way (clo s) -> clo s' = C_returned) /\
+                 (under_way (clo2 s) -> clo2 s' = C_returned) /\
+                 wg s' = 0 /\ Z.of_nat (length es) <= measure s).
 Proof. exact close_returns. Qed.
 Print Assumptions C09_close_returns.
 
@@ -180,6 +194,11 @@ Theorem C09_any_oracle_sound : forall fl tl rr cr leak,
   any_oracle fl tl rr cr leak = true <-> any_spec fl tl rr cr leak.
 Proof. exact any_oracle_sound. Qed.
 Print Assumptions C09_any_oracle_sound.
+
+Theorem C09_park_oracle_sound : forall held allc rr leak,
+  park_oracle held allc rr leak = true <-> park_spec held allc rr leak.
+Proof. exact park_oracle_sound. Qed.
+Print Assumptions C09_park_oracle_sound.
 
 Theorem C09_end_oracle_sound : forall rr cr leak,
   end_oracle rr cr leak = true <-> end_spec rr cr leak.
